@@ -1225,7 +1225,6 @@ def read_parse_file(fn, interp):
     if len(params) < 2:
         raise TranslateError("parse_file: unexpected parameters")
     selfname, textparam = params[0], params[1]
-    body = body_without_docstring(fn)
 
     def is_parse_line(c):
         return is_call(c, "parse_line") and isinstance(c.func.value, ast.Name) and c.func.value.id == selfname
@@ -1243,7 +1242,6 @@ def read_parse_file(fn, interp):
         a_line, a_no = call.args
 
     # the iteration that contains the call: a for statement or a comprehension
-    loop = None      # (target, iter node, [conditions as (test node, must_hold)], result kind)
     parents = {}
     for p in ast.walk(fn):
         for c in ast.iter_child_nodes(p):
@@ -1285,7 +1283,6 @@ def read_parse_file(fn, interp):
                 raise TranslateError("parse_file: for/else")
             # path from the loop body to the call: enclosing ifs and preceding guard clauses
             inner = chain[:k]
-            stmt = inner[-1] if inner else call
             # the statement holding the call must be `<acc>.append(call)` (or acc += [call])
             holder = None
             for x in inner:
@@ -1300,7 +1297,7 @@ def read_parse_file(fn, interp):
             else:
                 raise TranslateError("parse_file: the parsed line is not appended to a result list")
             # conditions: walk block structure from loop body down to holder
-            block, owner = n.body, n
+            block = n.body
             path = [x for x in reversed(inner) if isinstance(x, ast.stmt)]
             for s in path:
                 idx = None
@@ -1437,12 +1434,12 @@ def read_parse_file(fn, interp):
     for t, c in sorted(terms.items()):
         if t == ivar:
             continue
-        if c != 1 or t not in params:
+        if c != 1 or t not in params or t in fenv.assigns:
             raise TranslateError("parse_file: unexpected term %s*%s in the line number" % (c, t))
         out_terms.append(t)
     # enumerate(lines, s) with `i + c`  ==  enumerate(lines) with `i + (s + c)` when i is only the number
     for t, c in sorted(start_terms.items()):
-        if c != 1 or t not in params or not only_number:
+        if c != 1 or t not in params or t in fenv.assigns or not only_number:
             raise TranslateError("parse_file: unexpected enumerate start")
         out_terms.append(t)
     if enum_start != 0:
